@@ -57,11 +57,19 @@ deriving Repr
 def bnP (x : Int) : Int := 36 * x ^ 4 + 36 * x ^ 3 + 24 * x ^ 2 + 6 * x + 1
 def bnR (x : Int) : Int := 36 * x ^ 4 + 36 * x ^ 3 + 18 * x ^ 2 + 6 * x + 1
 
-/-- the prime a field parameter denotes (family code 1 = EP_BN) -/
+/-- Barreto–Lynn–Scott family with embedding degree 12: p = (x − 1)²·(x⁴ − x² + 1)/3 + x, r = x⁴ − x² + 1 -/
+def b12R (x : Int) : Int := x ^ 4 - x ^ 2 + 1
+def b12P (x : Int) : Int := (x - 1) ^ 2 * b12R x / 3 + x
+
+/-- the field characteristic of a pairing-friendly family at curve parameter x (0 for a family this model does not know) -/
+def familyP (fam : String) (x : Int) : Int :=
+  if fam == "EP_BN" then bnP x else if fam == "EP_B12" then b12P x else 0
+
+/-- the prime a field parameter denotes -/
 def FieldParam.prime (f : FieldParam) : Nat :=
   match f.kind with
   | .literal p => p
-  | .family _ x => (bnP x).toNat
+  | .family fam x => (familyP fam x).toNat
 
 /-- value of a sparse form: 2^f[n-1] ± 2^|f[i]| … + f[0] -/
 def spsVal (sps : List Int) : Int :=
@@ -178,12 +186,17 @@ def fieldOk (f : FieldParam) : Bool :=
   (f.sps.isEmpty || spsVal f.sps == (f.prime : Int)) &&
   (match f.kind with
    | .literal p => p % 2 == 1 && p > 3
-   | .family fam x => fam == "EP_BN" && bnP x > 3)
+   | .family fam x => (fam == "EP_BN" || (fam == "EP_B12" && (x - 1) ^ 2 * b12R x % 3 == 0)) && familyP fam x > 3)
 
-/-- pairing-friendly BN curve: the order is r(x), the embedding degree is 12 -/
+/-- pairing-friendly curve of a known family: the declared family is the field's, the order is the family's r(x), the cofactor is the
+    family's (1 for BN, (x − 1)²/3 for BLS12), the embedding degree is 12 -/
 def bnOk (f : FieldParam) (c : CurveParam) : Bool :=
   match f.kind with
-  | .family _ x => (bnR x).toNat == c.r && c.h == 1 && embedDeg f.prime c.r 12
+  | .family fam x =>
+    c.pairf == fam &&
+    (if fam == "EP_BN" then (bnR x).toNat == c.r && c.h == 1
+     else if fam == "EP_B12" then (b12R x).toNat == c.r && (c.h : Int) * 3 == (x - 1) ^ 2
+     else false) && embedDeg f.prime c.r 12
   | .literal _ => false
 
 /-- smallest k ≤ bound with p^k ≡ 1 (mod r), if any: the embedding degree when it is small -/
